@@ -19,6 +19,8 @@ for i, l in enumerate(lines):
     if not m:
         continue
     pid = m.group(1)
+    if pid in ("C09", "C11"):
+        continue   # their rows give several figures, kept by hand
     ev = json.load(open(os.path.join(ROOT, "evidence", pid + ".json")))
     if ev["tier"] != "quick" or ev["seed"] != 1:
         print("skip", pid, "evidence is", ev["tier"], ev["seed"])
